@@ -336,7 +336,7 @@ fn macro_part(prop: &str, tier: &str, probes: &Probes, col: &mut crate::report::
         rich: true,
         policy_alphabet: false,
         probes: probes.clone(),
-        max_secs: if thorough { 12.0 } else { 5.0 },
+        max_secs: if thorough { 6.0 } else { 5.0 },
     };
     let t0 = Instant::now();
     let (st, c) = crate::script::macro_all(&cfgs, &p);
@@ -353,7 +353,7 @@ fn macro_part(prop: &str, tier: &str, probes: &Probes, col: &mut crate::report::
         rich: false,
         policy_alphabet: true,
         probes: probes.clone(),
-        max_secs: if thorough { 8.0 } else { 4.0 },
+        max_secs: if thorough { 4.0 } else { 4.0 },
     };
     let t1 = Instant::now();
     let (pst, c) = crate::script::macro_all(&crate::script::policy_configs(thorough), &pp);
